@@ -207,7 +207,7 @@ def spec_predict(data, w, h, depth):
 
 # ------------------------------------------------------------------ known findings
 def zero_width_class(c, w, h, depth):
-    """the class of finding F-C04-2: a raster without pixels whose width is 0"""
+    """the class of finding F-C04-2 (repaired by 992c68e; the classifier only acts while the entry is listed open)"""
     return w == 0 and ((c == 1 and h > 0) or (c == 3 and depth == 32))
 
 
@@ -374,7 +374,7 @@ def run():
                 s = spec_rle_stream(data, w, h, depth, version, variant)
                 if s is not None:
                     streams.append(("packbits%d" % variant, s, s))
-        elif c == 3 and depth != 1 and w > 0:
+        elif c == 3 and depth != 1:
             p = spec_predict(data, w, h, depth)
             streams.append(("predict", zl(p), p))
         elif c == 2 and tag == "small":
@@ -382,8 +382,6 @@ def run():
         elif c == 0 and tag == "small":
             streams.append(("raw", data, data))
         for name, s_impl, s_model in streams:
-            if c == 1 and w == 0 and h > 0:
-                continue  # F-C04-2 (reported by the round trip above)
             rs = call(comp.decompress, s_impl, CC[c], w, h, depth, version)
             ck.count("spec-stream:" + name)
             if rs[0] != "ok" or bytes(rs[1]) != data:
@@ -464,7 +462,7 @@ def run():
 
     # ---------------- the index generator of the 32-bit shuffle
     if hasattr(comp, "_shuffled_order"):
-        oc = [(w, [0] + list(comp._shuffled_order(w, 1))) for w in range(1, 40)]
+        oc = [(w, [0] + list(comp._shuffled_order(w, 1))) for w in range(0, 40)]
         ck.correspond("shuffled_order", "fun w => 0 :: map Z.of_nat (order_row (Z.to_nat w))", IMPORTS, oc, lambda w: "%d" % w)
 
     # ---------------- containers
